@@ -232,6 +232,194 @@ Section Confluence.
       + unfold F. now rewrite run_steps_keys.
     - intros s Hs. rewrite (Hl s Hs). now apply F_entry.
   Qed.
+
+  (* ---------- a complete schedule always exists: listed order, items in source order ---------- *)
+
+  Lemma exec_all_app a : forall b st,
+    exec_all rl steps parent st (a ++ b) =
+    match exec_all rl steps parent st a with
+    | Some st1 => exec_all rl steps parent st1 b
+    | None => None
+    end.
+  Proof.
+    induction a as [|e a IH]; intros b st; cbn; [reflexivity|].
+    destruct (exec rl steps parent st e); [apply IH|reflexivity].
+  Qed.
+
+  Definition present (l : string) (n : nat) (st : sstate) : Prop :=
+    forall j, (j < n)%nat -> lookup_item (l, j) (st_items st) <> None.
+
+  Lemma gather_total l items : forall n k,
+    (forall j, (j < k + n)%nat -> lookup_item (l, j) items <> None) ->
+    exists rs, gather_from l k n items = Some rs.
+  Proof.
+    induction n as [|n IH]; intros k H; cbn; [eauto|].
+    destruct (lookup_item (l, k) items) as [r|] eqn:E; [|exfalso; apply (H k); [lia|exact E]].
+    destruct (IH (S k)) as [rs ->]; [|eauto].
+    intros j Hj. apply H. lia.
+  Qed.
+
+  Lemma exec_step_shape st l st1 :
+    exec rl steps parent st (EvStep l) = Some st1 ->
+    exists r, st_done st1 = st_done st ++ [(l, r)] /\ st_items st1 = st_items st.
+  Proof.
+    cbn [exec]. destruct (find_step steps l) as [s|]; [|discriminate].
+    destruct (is_done l st || negb (deps_ready s st)); [discriminate|].
+    destruct (step_plan s parent (st_done st)) as [r|inputs en|its en].
+    - intros [= <-]. cbn. eauto.
+    - intros [= <-]. cbn. eauto.
+    - destruct (gather l (List.length its) (st_items st)); [|discriminate]. intros [= <-]. cbn. eauto.
+  Qed.
+
+  Lemma exec_step_enabled st s :
+    find_step steps (s_label s) = Some s -> is_done (s_label s) st = false -> deps_ready s st = true ->
+    (forall its en, step_plan s parent (st_done st) = PEach its en -> present (s_label s) (List.length its) st) ->
+    exists st1, exec rl steps parent st (EvStep (s_label s)) = Some st1.
+  Proof.
+    intros Hf Hd Hr Hp. cbn [exec]. rewrite Hf, Hd, Hr. cbn.
+    destruct (step_plan s parent (st_done st)) as [r|inputs en|its en] eqn:P; eauto.
+    destruct (gather_total (s_label s) (st_items st) (List.length its) 0%nat) as [rs Hg].
+    { intros j Hj. exact (Hp its en eq_refl j Hj). }
+    unfold gather. rewrite Hg. eauto.
+  Qed.
+
+  Lemma skipn_cons_nth {A} (l : list A) k x rest :
+    skipn k l = x :: rest -> nth_error l k = Some x /\ skipn (S k) l = rest.
+  Proof.
+    revert k. induction l as [|a l IH]; intros [|k]; cbn; try discriminate.
+    - intros [= -> ->]. auto.
+    - intros H. exact (IH k H).
+  Qed.
+
+  (* the items of a forEach step, in source order *)
+  Lemma items_run s its en D :
+    find_step steps (s_label s) = Some s ->
+    forall rest k st,
+      st_done st = D -> is_done (s_label s) st = false -> deps_ready s st = true ->
+      step_plan s parent D = PEach its en -> skipn k its = rest ->
+      (forall j, (k <= j)%nat -> lookup_item (s_label s, j) (st_items st) = None) ->
+      present (s_label s) k st ->
+      exists st',
+        exec_all rl steps parent st (mapi_from (fun j (_ : json) => EvItem (s_label s) j) k rest) = Some st' /\
+        st_done st' = D /\ present (s_label s) (k + List.length rest) st' /\
+        (forall key r, In (key, r) (st_items st') -> In (key, r) (st_items st) \/ fst key = s_label s).
+  Proof.
+    intros Hf. induction rest as [|x rest IH]; intros k st HD Hd Hr Hp Hs Hnone Hpres.
+    - exists st. cbn. rewrite Nat.add_0_r. auto.
+    - destruct (skipn_cons_nth its k x rest Hs) as [Hn Hs'].
+      cbn [mapi_from exec_all exec]. rewrite Hf, Hd, Hr. cbn.
+      rewrite (Hnone k (le_n k)), HD, Hp, Hn.
+      set (st1 := add_item (s_label s) k (push_l (s_label s, Some k) (rl (s_logic s) x en)) st).
+      destruct (IH (S k) st1) as (st' & He & HD' & Hpr' & Hin'); auto.
+      + intros j Hj. cbn. rewrite lookup_item_app_none by (apply Hnone; lia). cbn.
+        unfold item_eqb. cbn. rewrite String.eqb_refl. cbn.
+        destruct (Nat.eqb j k) eqn:E; [apply Nat.eqb_eq in E; lia|reflexivity].
+      + intros j Hj. cbn. destruct (Nat.eq_dec j k) as [->|Hne].
+        * rewrite lookup_item_app_none by (apply Hnone; lia). cbn.
+          unfold item_eqb. cbn. now rewrite String.eqb_refl, Nat.eqb_refl.
+        * destruct (lookup_item (s_label s, j) (st_items st)) as [r|] eqn:E.
+          -- now rewrite (lookup_item_app_some _ _ _ _ E).
+          -- exfalso. apply (Hpres j); [lia|exact E].
+      + exists st'. split; [exact He|]. split; [exact HD'|]. split.
+        * cbn [List.length]. replace (k + S (List.length rest))%nat with (S k + List.length rest)%nat by lia.
+          exact Hpr'.
+        * intros key r H. destruct (Hin' key r H) as [H1|H1]; [|now right].
+          cbn in H1. apply in_app_or in H1. destruct H1 as [H1|[H1|[]]]; [now left|].
+          injection H1 as <- _. now right.
+  Qed.
+
+  Lemma run_step_agree st s :
+    inv st -> deps_ready s st = true ->
+    run_step_g rl s parent (st_done st) = run_step_g rl s parent F.
+  Proof. intros Hi Hr. unfold run_step_g. now rewrite (plan_agree st s Hi Hr). Qed.
+
+  Lemma listed_schedule_runs : forall post pre st,
+    steps = pre ++ post -> inv st -> st_done st = run_steps_g rl pre parent [] ->
+    (forall key r, In (key, r) (st_items st) -> In (fst key) (map s_label pre)) ->
+    exists st',
+      exec_all rl steps parent st (listed_schedule rl parent post (st_done st)) = Some st' /\
+      st_done st' = run_steps_g rl post parent (st_done st).
+  Proof.
+    destruct WF as [Hc Hn].
+    induction post as [|s post IH]; intros pre st Hsteps Hi HD Hitems.
+    - exists st. cbn. auto.
+    - cbn [listed_schedule run_steps_g]. rewrite exec_all_app.
+      assert (In s steps) as Hs by (rewrite Hsteps; apply in_or_app; right; now left).
+      assert (find_step steps (s_label s) = Some s) as Hf by (apply find_label_in; auto).
+      assert (~ In (s_label s) (map s_label pre)) as Hnot.
+      { rewrite Hsteps, map_app in Hn. cbn in Hn. apply NoDup_remove_2 in Hn.
+        intros H. apply Hn. apply in_or_app. now left. }
+      assert (is_done (s_label s) st = false) as Hd.
+      { unfold is_done. rewrite HD, run_steps_keys. cbn.
+        destruct (mem_str (s_label s) (map s_label pre)) eqn:E; [|reflexivity].
+        apply mem_str_In in E. tauto. }
+      assert (deps_ready s st = true) as Hr.
+      { unfold deps_ready. destruct (is_error_step s) eqn:He; [reflexivity|].
+        apply forallb_forall. intros d Hdd. unfold is_done. rewrite HD, run_steps_keys. cbn.
+        apply mem_str_In. rewrite Hsteps in Hc. exact (deps_closed_split pre s post Hc He d Hdd). }
+      (* the events of step s lead to a state whose done-map has one more entry, that of s *)
+      assert (exists st1,
+                exec_all rl steps parent st (step_events parent s (st_done st)) = Some st1 /\
+                (exists r, st_done st1 = st_done st ++ [(s_label s, r)]) /\
+                (forall key r, In (key, r) (st_items st1) ->
+                               In (key, r) (st_items st) \/ fst key = s_label s)) as (st1 & He1 & (r & Hd1) & Hit1).
+      { unfold step_events.
+        destruct (step_plan s parent (st_done st)) as [r0|inputs en|its en] eqn:P.
+        - destruct (exec_step_enabled st s Hf Hd Hr) as [st1 E1]; [intros ? ? H; congruence|].
+          exists st1. cbn [exec_all]. rewrite E1. split; [reflexivity|].
+          destruct (exec_step_shape st _ st1 E1) as (r & H1 & H2). split; [eauto|].
+          intros key r' H. left. now rewrite <- H2.
+        - destruct (exec_step_enabled st s Hf Hd Hr) as [st1 E1]; [intros ? ? H; congruence|].
+          exists st1. cbn [exec_all]. rewrite E1. split; [reflexivity|].
+          destruct (exec_step_shape st _ st1 E1) as (r & H1 & H2). split; [eauto|].
+          intros key r' H. left. now rewrite <- H2.
+        - unfold mapi. rewrite exec_all_app.
+          destruct (items_run s its en (st_done st) Hf its 0%nat st eq_refl Hd Hr P eq_refl)
+            as (st0 & E0 & HD0 & Hpr0 & Hin0).
+          { intros j _. destruct (lookup_item (s_label s, j) (st_items st)) as [x|] eqn:E; [|reflexivity].
+            apply lookup_item_in in E. apply Hitems in E. cbn in E. tauto. }
+          { intros j Hj. lia. }
+          rewrite E0. cbn in Hpr0.
+          assert (is_done (s_label s) st0 = false) as Hd0 by (unfold is_done; now rewrite HD0).
+          assert (deps_ready s st0 = true) as Hr0.
+          { unfold deps_ready, is_done in *. now rewrite HD0. }
+          destruct (exec_step_enabled st0 s Hf Hd0 Hr0) as [st1 E1].
+          { intros its' en' P'. rewrite HD0, P in P'. injection P' as <- <-. exact Hpr0. }
+          exists st1. cbn [exec_all]. rewrite E1. split; [reflexivity|].
+          destruct (exec_step_shape st0 _ st1 E1) as (r & H1 & H2). split.
+          + exists r. now rewrite H1, HD0.
+          + intros key r' H. rewrite H2 in H. exact (Hin0 key r' H). }
+      rewrite He1.
+      pose proof (exec_all_inv _ st st1 Hi He1) as Hi1.
+      (* that entry is the sequential one *)
+      assert (r = run_step_g rl s parent (st_done st)) as ->.
+      { rewrite (run_step_agree st s Hi Hr).
+        destruct Hi1 as (_ & Hl1 & _).
+        assert (lookup (s_label s) F = Some r) as H1.
+        { apply Hl1. rewrite Hd1. apply in_or_app. right. now left. }
+        rewrite (F_entry s Hs) in H1. now injection H1. }
+      destruct (IH (pre ++ [s]) st1) as (st' & He' & HD').
+      + now rewrite <- app_assoc.
+      + exact Hi1.
+      + rewrite Hd1, HD. now rewrite run_steps_snoc.
+      + intros key r' H. rewrite map_app. apply in_or_app. destruct (Hit1 key r' H) as [H1|H1].
+        * left. exact (Hitems key r' H1).
+        * right. cbn. now left.
+      + exists st'. rewrite Hd1 in He', HD'. auto.
+  Qed.
+
+  Theorem listed_schedule_complete name :
+    sched_result rl steps parent name (listed_schedule rl parent steps []) = Some (assemble name steps F).
+  Proof.
+    destruct (listed_schedule_runs steps [] st_init eq_refl inv_init eq_refl) as (st & He & HD).
+    { intros key r []. }
+    cbn in He, HD. unfold sched_result. rewrite He.
+    assert (complete steps st = true) as Hcomp.
+    { unfold complete. apply forallb_forall. intros s Hs. unfold is_done. rewrite HD, run_steps_keys.
+      cbn. apply mem_str_In. now apply in_map. }
+    rewrite Hcomp. destruct (complete_unique_thm _ st He Hcomp) as [Hl _].
+    now rewrite Hl.
+  Qed.
 End Confluence.
 
 
@@ -432,5 +620,15 @@ Section Statements.
   Proof.
     intros WF Hw. rewrite (result_schedule_independent_thm fn_sem _ _ _ _ _ WF Hw).
     rewrite run_workflow_ready by apply WF. apply assemble_state.
+  Qed.
+
+  (* the semantics is not vacuous: every well-formed workflow has a complete schedule *)
+  Theorem schedule_exists_thm name steps trigger :
+    well_formed steps ->
+    sched_result rl steps trigger name (listed_schedule rl trigger steps []) =
+    Some (run_workflow fn_sem name None steps trigger).
+  Proof.
+    intros WF. rewrite (listed_schedule_complete rl steps trigger WF name).
+    now rewrite run_workflow_ready by apply WF.
   Qed.
 End Statements.
